@@ -249,8 +249,23 @@ def main(argv):
         rc, out = sh(cmd, env=dict(goenv(), GOMAXPROCS="16", PINT_BIN=pint_bin or "", PINT_RACE_BIN=race_bin or ""), timeout=cfg.get("timeout", {}).get(tier, 3000), limit=True)
         if rc != 0:
             notes.append("harness exited %d: %s" % (rc, out[-3000:]))
-            path = write_replay(prop, seed, 0, {"property": prop, "kind": "harness-crash", "log": out[-6000:]})
-            violations.append((path, " no-failing-input-found"))
+            inflight = os.path.join(outdir, "inflight.json")
+            if os.path.exists(inflight) and not replay:
+                # the process died (fatal error, stack overflow, killed after a hang) while evaluating this input
+                try:
+                    inp = json.load(open(inflight))
+                except Exception:
+                    inp = open(inflight, errors="replace").read()[:20000]
+                m = re.search(r"(?m)^(fatal error: .*|panic: .*|runtime: goroutine stack exceeds.*)$", out)
+                v = {"class": "process-crash", "known": False, "input": inp,
+                     "observed": {"exit": rc, "first_fatal_line": m.group(1) if m else None, "log_tail": out[-3000:]},
+                     "expected": "the implementation returns a verdict for this input"}
+                path = write_replay(prop, seed, 0, {"property": prop, "kind": "failing-input", "violation": v,
+                                                   "replay_cmd": "./check %s --replay <this file>" % prop})
+                violations.append((path, ""))
+            else:
+                path = write_replay(prop, seed, 0, {"property": prop, "kind": "harness-crash", "log": out[-6000:]})
+                violations.append((path, " no-failing-input-found"))
         else:
             summary = json.load(open(os.path.join(outdir, "summary.json")))
             # correspondence: same op lines through the Lean driver
